@@ -3,19 +3,22 @@
  *   fscanf("%16c") / fscanf("%20c") deliver the harness field in_buf to the helper under contract (FIELD_INT selects which
  *   of the two helpers that is) and a constant legal descriptor to the other helper;
  *   fscanf("%14c") delivers the header number "-1" so that the vector readers that follow have nothing to read. */
-#include <stdarg.h>
-#include <stdio.h>
-#include "slu_mt_@p@defs.h"
+/* no system header here: <stdio.h> would bring the variadic prototype of the function redefined below */
+typedef struct _IO_FILE FILE;
 extern char in_buf[FW];
-int g_fields_delivered;
+int g_fields_delivered; void rb_canaries(void);
 static void put(char *dst, const char *src, int n) { int i, e = 0; for (i = 0; i < n; i++) { if (!e && src[i] == 0) e = 1; dst[i] = e ? ' ' : src[i]; } }
-int fscanf(FILE *fp, const char *fmt, ...) {
-  va_list ap; char *dst; int i;
-  va_start(ap, fmt); dst = va_arg(ap, char *); va_end(ap);
+/* every fscanf call of ?readrb has exactly one char* argument; the stub is declared with that fixed signature because the
+ * contract instrumentation cannot pass its write set through a variadic call.  glibc's <stdio.h> renames fscanf. */
+int __isoc99_fscanf(FILE *fp, const char *fmt, char *dst) {
+  int i;
   if (fmt[1] == '1' && fmt[2] == '4') put(dst, "-1", 14);
   else if (fmt[1] == '1' && fmt[2] == '6') {
 #if FIELD_INT
-    for (i = 0; i < FW; i++) dst[i] = in_buf[i]; g_fields_delivered++;
+    /* ?readrb parses two integer descriptors; the contract instrumentation admits one call of the function under contract
+     * per run, so the run ends when the second field is requested (the first call has been checked on return) */
+    if (g_fields_delivered++ > 0) { rb_canaries(); __CPROVER_assume(0); }
+    for (i = 0; i < FW; i++) dst[i] = in_buf[i];
 #else
     put(dst, "(10I8)", 16);
 #endif
@@ -28,9 +31,11 @@ int fscanf(FILE *fp, const char *fmt, ...) {
   }
   return 1;
 }
-char *fgets(char *s, int n, FILE *fp) { return s; }
+/* only the title line is read with fgets before the vectors; the vector readers get nothing (header says -1 entries) */
+int g_fgets_calls;
+char *fgets(char *s, int n, FILE *fp) { if (g_fgets_calls++ > 0) __CPROVER_assume(0); return s; }
 int fputs(const char *s, FILE *fp) { return 0; }
 int fgetc(FILE *fp) { return '\n'; }
 int printf(const char *f, ...) { return 0; }
 int fclose(FILE *fp) { return 0; }
-void @p@allocateA(int_t n, int_t nnz, @T@ **a, int_t **asub, int_t **xa) { }
+void @p@allocateA(int n, int nnz, void **a, int **asub, int **xa) { }
